@@ -260,6 +260,23 @@ def run(ctx: Ctx) -> None:
             rep.ok("C05.R3", nf.qname, desc, nf.loc())
     rep.floor("C05.R3", n3, 4)
 
+    # ---- R3b: the text form used for dates / times is the type-qualified one
+    for names, br in brs:
+        if not any(x.startswith("datetime.") for x in names):
+            continue
+        n3 += 1
+        convs = [n for n in ast.walk(br) if isinstance(n, ast.Call) and unparse(n.func) in ("repr", "str", "format") or (isinstance(n, ast.Call) and isinstance(n.func, ast.Attribute)
+                 and n.func.attr in ("isoformat", "__str__", "strftime", "total_seconds", "timestamp"))]
+        desc = "dates, times, durations and time zones are hashed from a text form that names their type"
+        bad = [c for c in convs if unparse(c.func) != "repr"]
+        if convs and not bad:
+            rep.ok("C05.R3", h.qname, desc, h.loc(br))
+        elif bad:
+            rep.bad("C05.R3", h.qname, desc, h.loc(bad[0]), [f"{h.loc(bad[0])}: `{unparse(bad[0], 50)}` on a branch shared by {names}",
+                    "str() / isoformat() are not injective across these types: time(10, 30) and timedelta(hours=10, minutes=30) both give '10:30:00'; two time zones with one name collide"],
+                    "datetime-text", what="date / time values of different types share a text form and collide")
+        else:
+            rep.unknown("C05.R3", h.qname, "date / time branch: conversion not recognised", h.loc(br))
     # ---- R4 boundary pre-images ------------------------------------------------------------------
     def oracle(name, args, kwargs, node):
         if name.endswith("get_option"):
@@ -315,8 +332,8 @@ def run(ctx: Ctx) -> None:
                 a = n.args[0]
                 if isinstance(a, ast.Call) and (prog.dotted(h, a.func) or "") == "struct.pack" and isinstance(a.args[0], ast.Constant):
                     widths.setdefault(label, []).append(struct.calcsize(a.args[0].value))
-                elif isinstance(a, ast.BinOp) and isinstance(a.op, ast.Add) and isinstance(a.left, ast.Constant) and isinstance(a.left.value, bytes):
-                    tags.append((label, a.left.value, h.loc(n)))
+                elif isinstance(a, ast.BinOp) and isinstance(a.op, ast.Add) and _const_bytes(ctx, h, a.left) is not None:
+                    tags.append((label, _const_bytes(ctx, h, a.left), h.loc(n)))
                 else:
                     other.append(f"{h.loc(n)}: numeric pre-image `{unparse(a, 60)}` is neither a fixed-width pack nor a tagged encoding")
     allw = sorted({w for ws in widths.values() for w in ws})
@@ -334,6 +351,16 @@ def run(ctx: Ctx) -> None:
         rep.bad("C05.R5", h.qname, desc, h.loc(), wit + ["e.g. a bare two's-complement encoding of 2**62 is the 8 bytes of the float 2.0"], "numeric", what="numeric encodings of different types can coincide")
     else:
         rep.ok("C05.R5", h.qname, desc, h.loc())
+
+
+def _const_bytes(ctx: Ctx, h: Func, e: ast.AST):
+    """bytes constant of an expression (literal, or a module-level constant name)"""
+    from ..absint import Env
+    try:
+        v = Evaluator(ctx.prog).eval(e, Env(), h)
+    except Exception:
+        return None
+    return v.v if isinstance(v, Const) and isinstance(v.v, bytes) else None
 
 
 def _used_as_hashed_value(c: ast.AST, name: str, rec_names) -> bool:
